@@ -48,8 +48,11 @@ def run_case(case: Dict[str, Any], ctx: Any) -> core.CaseResult:
             res.bad("one-row-per-critical-edge", f"{tag}: breakdown has {None if bd is None else len(bd)} rows for {len(edges)} critical edges")
             continue
         total = sum(e.weight for e in edges)
-        if abs(float(bd["duration"].sum()) - total) > 1e-9:
-            res.bad("duration-conserved", f"{tag}: breakdown durations add up to {bd['duration'].sum()}, path weight is {total}")
+        path = list(g.critical_path_nodes)
+        path_weight = sum(g.edges[u, w_]["weight"] for u, w_ in zip(path, path[1:]) if g.has_edge(u, w_))
+        if abs(float(bd["duration"].sum()) - path_weight) > 1e-9:
+            res.bad("duration-conserved", f"{tag}: breakdown durations add up to {bd['duration'].sum()}, the critical path weighs {path_weight} "
+                    f"in the graph (edge objects: {total})")
         # multiset of (attributed event, duration, type) from the edge objects vs. rows
         nl = g.node_list
         exp_rows = collections.Counter()
